@@ -20,6 +20,7 @@ ASSUMPTIONS = [
     'protocol object real; transport = list-recording double; state 7 uses the real makeConnection (PROTOCOLINFO outstanding)',
     'the partial next line is delivered through the real dataReceived so the line buffer is non-empty at the loss',
     'a disconnect notification counts as delivered when its Deferred fires (callback or errback)',
+    'retry: every failing command re-submits one command from its errback (re-entrancy into queue_command during the loss)',
 ]
 BOUNDS = {'quick': {'pre_loss_states': 8, 'post_loss_commands': '0..3 (plain/callback)', 'when_disconnected_requests': '0..2 before, 0..2 after',
                     'partial_line_prefix': 'prefix lengths {0,1,9,len-2,len-1} (quick), every prefix length (thorough)'},
@@ -33,10 +34,25 @@ def _is_disconnect_failure(o):
     return o.err == 1 and isinstance(o.exc(), TorDisconnectError)
 
 
-def _loss(st, nbytes, clean, m, kinds, wb, wa):
+def _loss(st, nbytes, clean, m, kinds, wb, wa, retry=False):
     p, t = fakes.new_protocol()
     outs = []
     cbl = []
+    retried = []
+
+    def watch(d, label):
+        """Outcome recorder; with retry the command's errback submits one more command (retry-on-failure)"""
+        o = fakes.Outcome()
+        if retry:
+            def again(f):
+                if label not in retried:
+                    retried.append(label)
+                    outs.append(fakes.Outcome(p.queue_command('GETINFO retry-of-' + label)))
+                return f
+            d.addErrback(again)
+        o.watch(d)
+        return o
+
     with api.no_tracing():     # concrete prefix of the session
         if st == 7:
             p.transport = None
@@ -45,12 +61,12 @@ def _loss(st, nbytes, clean, m, kinds, wb, wa):
         else:
             boot = None
             if st >= 1:
-                outs.append(fakes.Outcome(p.queue_command('GETINFO a', cbl.append if st in (2, 6) else None)))
+                outs.append(watch(p.queue_command('GETINFO a', cbl.append if st in (2, 6) else None), 'a'))
             if st in (3, 5, 6):
-                outs.append(fakes.Outcome(p.queue_command('GETINFO b')))
+                outs.append(watch(p.queue_command('GETINFO b'), 'b'))
             if st == 4:
-                outs.append(fakes.Outcome(p.queue_command('GETINFO b', cbl.append)))
-                outs.append(fakes.Outcome(p.queue_command('GETINFO c')))
+                outs.append(watch(p.queue_command('GETINFO b', cbl.append), 'b'))
+                outs.append(watch(p.queue_command('GETINFO c'), 'c'))
             if st == 5:
                 p.dataReceived(b'250-mid=line\r\n')
             if st == 6:
@@ -64,7 +80,7 @@ def _loss(st, nbytes, clean, m, kinds, wb, wa):
         before = t.value()
         p.connectionLost(Failure(ConnectionDone() if clean else ConnectionLost()))
         for i in range(m):
-            outs.append(fakes.Outcome(p.queue_command('GETINFO post%d' % i, cbl.append if kinds[i] else None)))
+            outs.append(watch(p.queue_command('GETINFO post%d' % i, cbl.append if kinds[i] else None), 'post%d' % i))
         for _ in range(wa):
             wd.append(fakes.Outcome(p.when_disconnected()))
     except Exception as e:
@@ -94,7 +110,7 @@ _OFFS = (0, 1, 9, len(NEXT_LINE) - 2, len(NEXT_LINE) - 1)
 
 
 @cond(quick=dict(parts=_STM, budget=100))
-def c03_loss(nbytes: int, clean: bool, m: int, k1: bool, k2: bool, k3: bool, wb: int, wa: int, st: int) -> str:
+def c03_loss(nbytes: int, clean: bool, m: int, k1: bool, k2: bool, k3: bool, wb: int, wa: int, st: int, retry: bool) -> str:
     """loss in state st with a symbolic partial line (prefix lengths 0, 1, middle, all but LF, all but CRLF's LF),
     then m commands and notification requests"""
     nbytes = api.pick_from(nbytes, _OFFS)
@@ -107,11 +123,11 @@ def c03_loss(nbytes: int, clean: bool, m: int, k1: bool, k2: bool, k3: bool, wb:
         assume(not k2)
     if m < 1:
         assume(not k1)
-    return _loss(st, nbytes, clean, m, [k1, k2, k3], wb, wa)
+    return _loss(st, nbytes, clean, m, [k1, k2, k3], wb, wa, retry)
 
 
 @cond(thorough=dict(parts=[{'st': s, 'm': m} for s in range(8) for m in range(5)], budget=900))
-def c03_loss4(nbytes: int, clean: bool, m: int, k1: bool, k2: bool, k3: bool, k4: bool, wb: int, wa: int, st: int) -> str:
+def c03_loss4(nbytes: int, clean: bool, m: int, k1: bool, k2: bool, k3: bool, k4: bool, wb: int, wa: int, st: int, retry: bool) -> str:
     """up to 4 post-loss commands"""
     nbytes = api.pick(nbytes, 0, len(NEXT_LINE) - 1)
     wb = api.pick(wb, 0, 2)
@@ -125,4 +141,4 @@ def c03_loss4(nbytes: int, clean: bool, m: int, k1: bool, k2: bool, k3: bool, k4
         assume(not k2)
     if m < 1:
         assume(not k1)
-    return _loss(st, nbytes, clean, m, [k1, k2, k3, k4], wb, wa)
+    return _loss(st, nbytes, clean, m, [k1, k2, k3, k4], wb, wa, retry)
